@@ -120,6 +120,74 @@ Proof.
   pose proof (Hgen (g_base G) (gl_base G L)) as H1. fold pv in H1. rewrite H1. rewrite (Hgen mv Hmv). apply Z.eqb_refl.
 Qed.
 
+(* ---------- C13: special soundness of the DLEQ relation ---------- *)
+Lemma lin2 a b p : V p -> g_add G (g_mul G a p) (g_mul G b p) = g_mul G (a + b) p.
+Proof. intros H. symmetry. apply (gl_mul_add G L). exact H. Qed.
+Lemma add4 a b a' b' p q : V p -> V q ->
+  g_add G (g_add G (g_mul G a p) (g_mul G b q)) (g_add G (g_mul G a' p) (g_mul G b' q))
+  = g_add G (g_mul G (a + a') p) (g_mul G (b + b') q).
+Proof.
+  intros Hp Hq.
+  assert (Vap : V (g_mul G a p)) by (apply (gl_mul_v G L); exact Hp).
+  assert (Vbq : V (g_mul G b q)) by (apply (gl_mul_v G L); exact Hq).
+  assert (Va'p : V (g_mul G a' p)) by (apply (gl_mul_v G L); exact Hp).
+  assert (Vb'q : V (g_mul G b' q)) by (apply (gl_mul_v G L); exact Hq).
+  rewrite <- (lin2 a a' p Hp), <- (lin2 b b' q Hq).
+  (* (ap + bq) + (a'p + b'q) = (ap + a'p) + (bq + b'q) *)
+  rewrite (gl_add_assoc G L (g_add G (g_mul G a p) (g_mul G b q)) (g_mul G a' p) (g_mul G b' q))
+    by (try apply (gl_add_v G L); assumption).
+  rewrite <- (gl_add_assoc G L (g_mul G a p) (g_mul G b q) (g_mul G a' p)) by assumption.
+  rewrite (gl_add_comm G L (g_mul G b q) (g_mul G a' p)) by assumption.
+  rewrite (gl_add_assoc G L (g_mul G a p) (g_mul G a' p) (g_mul G b q)) by assumption.
+  rewrite <- (gl_add_assoc G L (g_add G (g_mul G a p) (g_mul G a' p)) (g_mul G b q) (g_mul G b' q))
+    by (try apply (gl_add_v G L); assumption).
+  reflexivity.
+Qed.
+
+(* two accepting transcripts with the same commitments and different challenges force Z = k*M:
+   if Z <> k*M, at most one challenge can be answered for given commitments *)
+Theorem dleq_special_soundness (k : Z) (m z : bytes) (c s c' s' d : Z) :
+  V m -> V z -> g_base G <> g_id G ->
+  g_add G (g_mul G s (g_base G)) (g_mul G c (g_mul G k (g_base G)))
+    = g_add G (g_mul G s' (g_base G)) (g_mul G c' (g_mul G k (g_base G))) ->
+  g_add G (g_mul G s m) (g_mul G c z) = g_add G (g_mul G s' m) (g_mul G c' z) ->
+  (d * (c' - c)) mod ell = 1 ->
+  z = g_mul G k m.
+Proof.
+  intros Hm Hz HB E1 E2 Hd.
+  pose proof (gl_base G L) as VB.
+  (* exponents on the base point *)
+  rewrite <- !(gl_mul_mul G L) in E1 by exact VB. rewrite !(lin2 _ _ _ VB) in E1.
+  apply (gl_order G L _ _ _ VB HB) in E1.
+  (* bring the second equation to (s - s') m = (c' - c) z *)
+  assert (E3 : g_mul G (s - s') m = g_mul G (c' - c) z).
+  { assert (HL : g_add G (g_add G (g_mul G s m) (g_mul G c z)) (g_add G (g_mul G (- s') m) (g_mul G (- c) z))
+               = g_mul G (s - s') m).
+    { rewrite (add4 s c (- s') (- c) m z Hm Hz). replace (c + - c) with 0 by ring.
+      rewrite (gl_mul_0 G L z Hz). rewrite (gl_add_id G L) by (apply (gl_mul_v G L); exact Hm).
+      reflexivity. }
+    assert (HR : g_add G (g_add G (g_mul G s' m) (g_mul G c' z)) (g_add G (g_mul G (- s') m) (g_mul G (- c) z))
+               = g_mul G (c' - c) z).
+    { rewrite (add4 s' c' (- s') (- c) m z Hm Hz). replace (s' + - s') with 0 by ring.
+      rewrite (gl_mul_0 G L m Hm).
+      rewrite (gl_add_comm G L (g_id G)) by (try apply (gl_id G L); apply (gl_mul_v G L); exact Hz).
+      rewrite (gl_add_id G L) by (apply (gl_mul_v G L); exact Hz). reflexivity. }
+    rewrite <- HL, <- HR, E2. reflexivity. }
+  (* s - s' = (c' - c) k  (mod ell) *)
+  assert (E4 : (s - s') mod ell = ((c' - c) * k) mod ell).
+  { assert (H1 : (s - s') mod ell = ((s + c * k) - (s' + c * k)) mod ell) by (f_equal; ring).
+    rewrite H1. rewrite Zminus_mod, E1, <- Zminus_mod. f_equal. ring. }
+  rewrite <- (gl_mul_mod G L (s - s') m Hm), E4, (gl_mul_mod G L _ m Hm) in E3.
+  (* multiply by d *)
+  assert (E5 : g_mul G d (g_mul G ((c' - c) * k) m) = g_mul G d (g_mul G (c' - c) z)) by (rewrite E3; reflexivity).
+  rewrite <- !(gl_mul_mul G L) in E5 by assumption.
+  rewrite Z.mul_assoc in E5.
+  rewrite <- (gl_mul_mod G L (d * (c' - c) * k) m Hm) in E5. rewrite <- Zmult_mod_idemp_l, Hd, Z.mul_1_l in E5.
+  rewrite (gl_mul_mod G L k m Hm) in E5.
+  rewrite <- (gl_mul_mod G L (d * (c' - c)) z Hz), Hd, (gl_mul_1 G L z Hz) in E5.
+  symmetry. exact E5.
+Qed.
+
 (* ---------- C15: binary forms ---------- *)
 Lemma sc_canonical_to_bytes s : 0 <= s < ell -> sc_canonical (sc_to_bytes s) = Some s.
 Proof.
